@@ -27,7 +27,7 @@ from fractions import Fraction
 import numpy as np
 
 PROP = 'C08'
-TARGETS = ['T9a', 'T9b', 'T9c', 'T9d', 'T9e', 'T10a', 'T10b', 'T10c', 'T10d']
+TARGETS = ['T9a', 'T9b', 'T9c', 'T9d', 'T9e', 'T9f', 'T9g', 'T10a', 'T10b', 'T10c', 'T10d']
 LEAN_MODULES = ['HdVerif.Props.C08']
 MODEL_MODULES = ['HdVerif.Model.Volume']
 NAMESPACE = 'HdVerif.C08'
@@ -729,6 +729,47 @@ def oracle_channel_op(ctx, case, vin, vout, op, site):
         ctx.fail(case, {'what': 'channel descriptors do not follow the data', 'got': _channels_obs(vout), 'want': want_ch}, site=site)
 
 
+# ------------------------------------------------------------------------------------------ independence of results
+# copy() and the padding operations must hand back an array of their own (copy by name; numpy.pad always allocates):
+# working in place on the result (documented usage: `vol.array /= 100`) must not reach the input.  Indexing, flipping,
+# permuting, swapping, cropping, re-orienting, channel selection / permutation follow numpy's view semantics (the
+# documentation promises "largely similar to any NumPy array", no independence), ensure_handedness may return the object
+# itself ("returned unaltered"), with_array uses the caller's array: for those, sharing is recorded, not a failure.
+FRESH_OPS = {'copy', 'pad', 'pad_to', 'pad_or_crop_to'}
+
+
+def independence_probe(ctx, case, vin, vout, op, before, site):
+    shares = bool(np.shares_memory(vout.array, vin.array))
+    ctx.hist('result_shares_buffer_with_input', f"{op['op']}:{'shared' if shares else 'own'}")
+    if op['op'] not in FRESH_OPS:
+        return
+    if vout is vin:
+        ctx.fail(case, {'what': f"{op['op']} returned the input object itself"}, site=site + '/independence')
+        return
+    if shares:
+        ctx.fail(case, {'what': f"the array of the result of {op['op']} shares its buffer with the input's array "
+                                '(an in-place edit of the result changes the original)'}, site=site + '/independence')
+    # behavioural confirmation on a second result of the same call (the first one goes on through the history)
+    try:
+        probe = apply_op(vin, op, True)
+    except Exception:  # noqa: BLE001
+        return
+    out_before = vout.array.tobytes()
+    a = probe.array
+    if a.flags.writeable and a.size:
+        if a.dtype.kind == 'b':
+            np.logical_not(a, out=a)
+        else:
+            np.add(a, 1, out=a, casting='unsafe')
+        if _snapshot(vin) != before:
+            ctx.fail(case, {'what': f"editing the array of the result of {op['op']} in place changed the ORIGINAL volume"},
+                     site=site + '/independence')
+        if vout.array.tobytes() != out_before:
+            ctx.fail(case, {'what': f"two results of the same {op['op']} call share their array"}, site=site + '/independence')
+    elif not a.flags.writeable:
+        ctx.hist('result_not_writeable', op['op'])
+
+
 # ------------------------------------------------------------------------------------------ observations for the model
 def _frac_str(x):
     f = Fraction(float(x))
@@ -880,6 +921,7 @@ def run_history(ctx, spec, length, r, reqs, pending):
             if v2 is None or not hasattr(v2, 'affine'):
                 ctx.fail(case, {'what': 'operation returned no volume'}, site=site)
                 break
+            independence_probe(ctx, case, v, v2, op, before, site)
             good = oracle_step(ctx, case, v, v2, op, exact, site)
             if op['op'] in ('get_channel', 'permute_channels', 'permute_channels_by_id'):
                 oracle_channel_op(ctx, case, v, v2, op, site)
